@@ -107,6 +107,17 @@ fn param(s: &mut S, me: &str) -> String {
 }
 
 pub fn fuzz_line(s: &mut S, me: &str) -> (String, String) {
+    let (l, sig) = fuzz_line_inner(s, me);
+    // a few lines start with a run of blanks (leading blanks are skipped by the grammar)
+    if s.chance(5) {
+        let n = 1 + s.pick(6);
+        (format!("{}{}", " ".repeat(n), l), format!("{}/lead", sig))
+    } else {
+        (l, sig)
+    }
+}
+
+fn fuzz_line_inner(s: &mut S, me: &str) -> (String, String) {
     let (verb, max) = VERBS[s.pick(VERBS.len())];
     let arity = s.pick(max + 3);
     let mut l = verb.to_string();
